@@ -27,9 +27,10 @@ HARNESSES += [H(f"c14_default_options_contract_k{k:02d}", tier="quick" if (k < 1
                 clauses=["no Access-Control-Request-Method: 404", "501 (valid-preflight marker) iff the requested token is exactly a registered method, HEAD when GET is registered, or OPTIONS; otherwise 400",
                          "Access-Control-Allow-Methods is the registered methods (+HEAD with GET, +OPTIONS)"],
                 bound=f"registered methods {LISTS[k % 4]}; " + (f"requested method token of {3 + k // 4} symbolic printable ASCII bytes" if k < 20 else "no Access-Control-Request-Method header"), **B) for k in range(24)]
-HARNESSES += [H("c14_default_options_concrete_tokens", tier="quick", functions=["Handler::default_options_with"],
-                clauses=["12 concrete non-method tokens sharing text with the advertised list (substrings, separator, case, padding) => 400; the 4 admitted tokens => 501"],
-                bound="registered [GET, PATCH]; 16 CONCRETE tokens", expect_covers=False, **B)]
+TOK = ["PAT", "PATC", "EAD", "GE", "T", ",", ", ", "GET,", "GET, PATCH", "get", " GET", "OPTION", "GET", "PATCH", "HEAD", "OPTIONS"]
+HARNESSES += [H(f"c14_default_options_concrete_k{k:02d}", tier="quick", functions=["Handler::default_options_with"],
+                clauses=["a concrete token sharing text with the advertised list but not a method (substring, separator, case, padding) => 400; an admitted method => 501"],
+                bound=f"registered [GET, PATCH]; ONE concrete token `{TOK[k]}`", expect_covers=False, **B) for k in range(16)]
 HARNESSES += [H("c14_builder_credentials_need_explicit_origin", tier="quick", functions=["CORS::AllowCredentials", "CORS::new"],
                 clauses=["credentials are never enabled together with the wildcard origin"], bound="the two origin kinds", expect_covers=False, **B)]
 TRUSTED = ["util::unix_timestamp stubbed (clock)", "ASSUMED CONTRACT: core::str::from_utf8 (spec/utf8.rs)", "the inner proc is a stand-in answering with a fixed status and a 2-byte text body"]
